@@ -3,7 +3,7 @@ import os
 import numpy as np
 from hypothesis import strategies as st
 
-from .. import codec, conv, gen, sgy, sources
+from .. import files, codec, conv, gen, sgy, sources
 from ..core import Violation
 from ..spec import FIELDS
 
@@ -83,8 +83,13 @@ def run_case(case, ctx):
         for f in FIELDS:
             if a["headers"][i][f] != b["headers"][i][f]:
                 raise Violation("trace-header", f"trace {i} field {f}: exported {b['headers'][i][f]} vs original {a['headers'][i][f]}")
+    # "the values decoded from the SGZ": the harness's spec-only decode of the file, trace by trace in file
+    # order (grid positions of the populated traces), not anything the library's own reader returns
+    T = files.Truth(conv.read_bytes(sgz))
+    dec = np.stack([np.asarray(T.trace(i), dtype=np.float32) for i in range(T.n_tr)]) if T.n_tr else np.zeros((0, T.n_s), np.float32)
+    if dec.shape[0] != a["tracecount"]:
+        raise Violation("tracecount", f"the SGZ holds {dec.shape[0]} traces, the source {a['tracecount']}")
     with SgzReader(sgz) as r:
-        dec = np.stack([np.array(r.get_trace(i), dtype=np.float32) for i in range(a["tracecount"])])
         n_arrays = r.n_header_arrays
     if a["format"] == 5:
         if not codec.bits_equal(b["traces"], dec):
